@@ -967,7 +967,10 @@ ares_status_t ares_in_addr_to_sconfig_llist(const struct in_addr *servers,
            sizeof(sconfig->addr.addr.addr4));
 
     if (ares_llist_insert_last(s, sconfig) == NULL) {
-      goto fail; /* LCOV_EXCL_LINE: OutOfMemory */
+      /* LCOV_EXCL_START: OutOfMemory */
+      ares_free(sconfig);
+      goto fail;
+      /* LCOV_EXCL_STOP */
     }
   }
 
